@@ -173,6 +173,23 @@ InitCase ==
                        [] use = 2 -> Bin("+", Bin("*", NameRef("myname"), NumLit(<<50>>)), RelRef(1, 1))
                        [] use = 3 -> CallN("SUM", <<NameRef("myname"), NumLit(<<49>>)>>)
           IN case = Mk("name-cell", WithProbe(DenseCells, p, ast), nm, Probe(p))
+  \/ /\ "names" \in Families      \* names spelt letters-then-digits that are no cell addresses: a "column" beyond XFD, a row beyond 1048576
+     /\ \E t \in 1..3, p \in 1..3, use \in 1..3, nmv \in {"YTD2024", "A9999999"} :
+          LET nm == (nmv :> Ref(SheetsL[t], 2, 3, TRUE, TRUE)) @@ ("ZAR1" :> RngV(SheetsL[t], 1, 1, 2, 3, 4))
+              ast == CASE use = 1 -> NameRef(nmv)
+                       [] use = 2 -> Bin("+", Bin("*", NameRef(nmv), NumLit(<<50>>)), RelRef(1, 1))
+                       [] use = 3 -> Bin("+", CallN("SUM", <<NameRef("ZAR1")>>), CallN("COUNTA", <<NameRef("ZAR1"), NameRef(nmv)>>))
+          IN case = Mk("name-like-cell", WithProbe(DenseCells, p, ast), nm, Probe(p))
+  \/ /\ "range" \in Families      \* a range with a FORMULA member whose precedent lies on another sheet: the precedent is SET after the
+     /\ \E t \in 1..3, o \in 1..3, p \in 1..3, f \in {"SUM", "COUNTA"}, q \in BOOLEAN :     \* range was read once; the range shows the member's new value
+          LET tgt == <<SheetsL[o], 1, 1>>
+              mem == <<SheetsL[t], 2, 2>>
+              cells == [k \in DOMAIN DenseCells |-> IF k = tgt THEN K(Whole(100000))
+                                                    ELSE IF k = mem THEN F(Bin("*", Ref(SheetsL[o], 1, 1, FALSE, FALSE), NumLit(<<50>>))) ELSE DenseCells[k]]
+              ast == Bin("+", CallN(f, <<RngV(IF q \/ t # p THEN SheetsL[t] ELSE "", 1, 1, 3, 3, IF q THEN 4 ELSE 1)>>), NumLit(<<49>>))
+          IN /\ o # t
+             /\ case = [kind |-> "cross-set", cells |-> WithProbe(cells, p, ast), names |-> NoNames, probe |-> Probe(p),
+                        pname |-> "", pre |-> <<>>, late |-> tgt, was |-> Whole(1)]
   \/ /\ "names" \in Families      \* a name of the same spelling that is scoped to ANOTHER sheet (the file format allows one per sheet) has no
      /\ \E t \in 1..3, o \in 1..3, p \in 1..3, use \in 1..3 :     \* say in the formulas outside that sheet: there the name means what the workbook binds it to
           LET nm == ("myname" :> Ref(SheetsL[t], 2, 1, TRUE, TRUE))
